@@ -1,8 +1,164 @@
+import RichModel.Model.Progress
 import RichModel.Drv.Proto
-/- Driver handlers for property C12 (stub: filled in when the model is built). -/
-namespace RichModel.Drv.C12
-open RichModel RichModel.Proto
+/- Driver handlers for property C12 (progress accounting).
 
-def handlers : List (String × (List String → String)) := []
+Requests
+  pg_hist   cfg  clock  ops            sequential history, answer per operation
+  pg_sched  cfg  clock  setup  progs  events     replay of a thread schedule (event log from the real run)
+  pg_track  cfg  clock  setup  mode  taskId  total  n  seen    Progress.track / _TrackThread
+
+cfg    = "period maxLen tps clockOutside"
+clock  = readings, space separated (call k returns reading k; the last one repeats)
+ops    = op;op;...   each  "<code> args... <obs>"  with obs ∈ n (nothing) | d (dump) | e (dump + elapsed)
+-/
+namespace RichModel.Drv.C12
+open RichModel RichModel.Proto RichModel.Progress
+
+def decOI (s : String) : Option Int := if s == "_" then none else s.toInt?
+def decOB (s : String) : Option Bool := if s == "_" then none else some (s == "1")
+def encOI : Option Int → String
+  | none => "_"
+  | some v => toString v
+
+def decCfg (s : String) : Cfg :=
+  match s.splitOn " " with
+  | [p, m, t, c] => { period := decInt p, maxLen := decNat m, tps := decInt t, clockOutside := decBool c }
+  | _ => { period := 0, maxLen := 0, tps := 1, clockOutside := true }
+
+def decClock (s : String) : Clock :=
+  let arr : Array Int := ((s.splitOn " ").filterMap String.toInt?).toArray
+  fun k => if h : k < arr.size then arr[k] else arr.back?.getD 0
+
+def decOp (toks : List String) : Option Op :=
+  match toks with
+  | ["A", st, tot, comp, vis] => some (.addTask (decBool st) (decInt tot) (decInt comp) (decBool vis))
+  | ["S", id] => some (.startTask (decNat id))
+  | ["P", id] => some (.stopTask (decNat id))
+  | ["D", id] => some (.removeTask (decNat id))
+  | ["U", id, tot, comp, adv, vis, rf] =>
+    some (.update (decNat id) ⟨decOI tot, decOI comp, decOI adv, decOB vis, decBool rf⟩)
+  | ["R", id, st, tot, comp, vis] => some (.reset (decNat id) (decBool st) (decOI tot) (decInt comp) (decOB vis))
+  | ["V", id, amt] => some (.advance (decNat id) (decInt amt))
+  | _ => none
+
+/-- op with its observation flag (last token) -/
+def decOpObs (s : String) : Option (Op × String) :=
+  let toks := s.splitOn " "
+  match toks.getLast? with
+  | none => none
+  | some obs => (decOp toks.dropLast).map (fun o => (o, obs))
+
+def decOps (s : String) : Option (List (Op × String)) :=
+  if s.isEmpty then some [] else (s.splitOn ";").mapM decOpObs
+
+/-- reduced fraction with positive denominator -/
+def encFrac (n d : Int) : String :=
+  let g : Int := (Int.gcd n d : Nat)
+  if g == 0 then "0/1"
+  else
+    let n' := n / g
+    let d' := d / g
+    if d' < 0 then toString (-n') ++ "/" ++ toString (-d') else toString n' ++ "/" ++ toString d'
+
+def encSamples (l : List Sample) : String :=
+  " ".intercalate (l.map (fun s => toString s.ts ++ ":" ++ toString s.amt))
+
+def encTask (cfg : Cfg) (t : Task) : String :=
+  let p := t.percentage
+  ",".intercalate [toString t.id, toString t.total, toString t.completed, encOI t.finishedTime,
+    encBool t.visible, encOI t.startTime, encOI t.stopTime, encSamples t.samples,
+    encFrac p.1 p.2,
+    (match t.speed with | none => "_" | some (n, d) => encFrac n d),
+    encOI (t.timeRemaining cfg),
+    encBool t.started ++ encBool t.finished, toString t.remaining]
+
+def encDump (cfg : Cfg) (st : State) : String :=
+  "|".intercalate (st.tasks.map (encTask cfg))
+
+/-- dump with `task.elapsed` for every task, in order (each running task reads the clock) -/
+def encDumpElapsed (cfg : Cfg) (clock : Clock) (st : State) : String × State :=
+  let r := st.tasks.foldl (fun (acc : List String × Nat) t =>
+    let e := t.elapsedC clock acc.2
+    (acc.1 ++ [encTask cfg t ++ "," ++ encOI e.1], e.2)) ([], st.clk)
+  ("|".intercalate r.1, { st with clk := r.2 })
+
+def encErr : Option Err → String
+  | none => "ok"
+  | some .keyError => "KeyError"
+
+def runHist (cfg : Cfg) (clock : Clock) : List (Op × String) → State → List String → List String × State
+  | [], st, acc => (acc.reverse, st)
+  | (op, obs) :: rest, st, acc =>
+    let r := step cfg clock op st
+    let head := encErr r.err ++ "@" ++ toString r.st.clk
+    if obs == "d" then runHist cfg clock rest r.st ((head ++ "#" ++ encDump cfg r.st) :: acc)
+    else if obs == "e" then
+      let d := encDumpElapsed cfg clock r.st
+      runHist cfg clock rest d.2 ((head ++ "#" ++ d.1) :: acc)
+    else runHist cfg clock rest r.st (head :: acc)
+
+def decEvents (s : String) : Option (List (Bool × Nat)) :=
+  if s.isEmpty then some [] else
+  (s.splitOn " ").mapM (fun t =>
+    if t.startsWith "r" then (t.drop 1).toNat?.map (fun i => (true, i))
+    else if t.startsWith "c" then (t.drop 1).toNat?.map (fun i => (false, i))
+    else none)
+
+/-- replay an event log: each event must be the kind of step the model says the thread takes next -/
+def replay (cfg : Cfg) (clock : Clock) : List (Bool × Nat) → Nat → Conf → List String → Except String (Conf × List String)
+  | [], _, c, acc => .ok (c, acc.reverse)
+  | (isRead, i) :: rest, idx, c, acc =>
+    match stepThread cfg clock i c with
+    | none => .error ("rejected@" ++ toString idx ++ ":thread-finished")
+    | some (c', .read _) =>
+      if isRead then replay cfg clock rest (idx + 1) c' acc
+      else .error ("rejected@" ++ toString idx ++ ":model-expects-read")
+    | some (c', .commit _ _ _ err) =>
+      if isRead then .error ("rejected@" ++ toString idx ++ ":model-expects-commit")
+      else replay cfg clock rest (idx + 1) c' (encErr err :: acc)
+
+def handlers : List (String × (List String → String)) := [
+  ("pg_hist", fun a => match a with
+    | [cfg, clock, ops] =>
+      match decOps ops with
+      | none => "bad-ops"
+      | some ops =>
+        let cfg := decCfg cfg
+        let r := runHist cfg (decClock clock) ops State.empty []
+        ";".intercalate r.1
+    | _ => "bad-args"),
+  ("pg_sched", fun a => match a with
+    | [cfg, clock, setup, progs, events] =>
+      let cfg := decCfg cfg
+      let clock := decClock clock
+      match decOps setup, (if progs.isEmpty then some [] else (progs.splitOn "|").mapM decOps), decEvents events with
+      | some setup, some progs, some events =>
+        let st0 := run cfg clock (setup.map (·.1)) State.empty
+        let c0 : Conf := ⟨st0, progs.map (fun p => ⟨p.map (·.1), none⟩)⟩
+        match replay cfg clock events 0 c0 [] with
+        | .error e => e
+        | .ok (c, errs) =>
+          let left := (c.threads.map (fun th => th.prog.length)).sum
+          " ".intercalate errs ++ "@" ++ toString c.st.clk ++ "@" ++ toString left ++ "#" ++ encDump cfg c.st
+      | _, _, _ => "bad-ops"
+    | _ => "bad-args"),
+  ("pg_track", fun a => match a with
+    | [cfg, clock, setup, mode, taskId, total, n, seen] =>
+      let cfg := decCfg cfg
+      let clock := decClock clock
+      match decOps setup with
+      | none => "bad-ops"
+      | some setup =>
+        let st0 := run cfg clock (setup.map (·.1)) State.empty
+        let xs := List.range (decNat n)
+        let tid : Option Nat := if taskId == "_" then none else taskId.toNat?
+        let seenL : List Int := if seen.isEmpty then [] else (seen.splitOn " ").filterMap String.toInt?
+        let r := if mode == "seq" then trackSeq tid (decInt total) xs st0
+                 else trackThread tid (decInt total) xs seenL st0
+        let h := runHist cfg clock (r.2.map (fun o => (o, if mode == "seq" then "d" else "n"))) st0 []
+        if mode == "seq" then toString r.1.length ++ "!" ++ ";".intercalate h.1 ++ "!" ++ encDump cfg h.2
+        else "FINAL:" ++ toString r.1.length ++ "@" ++ toString h.2.clk ++ "!" ++ encDump cfg h.2
+    | _ => "bad-args")
+]
 
 end RichModel.Drv.C12
